@@ -147,7 +147,7 @@ impl Part for FuncPart {
         "(key:i64, n, function) generated with boundary keys; Sharder::new(n,f).shard(key) == PostgreSQL partition (or documented SHA1 rule); non-trivial = key negative or high word non-zero, or n not a power of two".into()
     }
     fn cases(&self, tier: Tier) -> u64 {
-        tier.pick(2_000_000, 40_000_000)
+        tier.pick(8_000_000, 80_000_000)
     }
     fn strategy(&self, _tier: Tier) -> BoxedStrategy<FuncCase> {
         (key_strategy(), n_strategy(), prop::bool::weighted(0.2)).prop_map(|(key, n, sha1)| FuncCase { key, n, sha1 }).boxed()
@@ -243,7 +243,7 @@ impl Part for PathPart {
         "(key, shard count 1..=16, function, routing path) where path ∈ {SET SHARDING KEY spellings, sharding_key comment regex (Q and Parse), literal equated with automatic_sharding_key in 10 statement shapes, Bind parameter text/binary 2/4/8 with uniform or per-parameter format codes}; whenever the router accepts the key its shard() must equal the reference partition; non-trivial = path other than SET SHARDING KEY, or key above 2^32".into()
     }
     fn cases(&self, tier: Tier) -> u64 {
-        tier.pick(300_000, 6_000_000)
+        tier.pick(1_200_000, 12_000_000)
     }
     fn strategy(&self, _tier: Tier) -> BoxedStrategy<PathCase> {
         let path = prop_oneof![
